@@ -34,3 +34,44 @@ def m_dataclass_fields(ex, obj):
 
 
 MC.NATIVE_MODELS[dataclasses.fields] = m_dataclass_fields
+
+
+# bin(x).count('1') (population count idiom) for a symbolic non-negative x of known range
+import z3  # noqa: E402
+
+from .values import OpaqueStr, Sym  # noqa: E402
+
+
+class BinStr(OpaqueStr):
+    """the string bin(x) of a symbolic x >= 0: only .count('1') / .count('0b') style queries are answered"""
+
+    def __init__(self, x, bits):
+        self.x = x
+        self.bits = bits
+
+
+def m_bin(ex, x):
+    x = _M.plain(x)
+    if ex.is_conc(x):
+        return bin(x)
+    if not (isinstance(x, Sym) and x.k == 'int'):
+        raise MC.Unsupported('bin() of a non-integer symbolic value')
+    r = _M.term_range(ex, x.t, 0)
+    if r is None or r[0] < 0 or r[1] >= (1 << 64):
+        raise MC.Unsupported('bin() of a symbolic integer without a known non-negative range')
+    return BinStr(x, max(r[1].bit_length(), 1))
+
+
+def binstr_method(ex, recv, name, args, kwargs):
+    if name == 'count' and len(args) == 1 and args[0] == '1' and not kwargs:
+        # '0b' prefix holds no '1'; the digits are the bits of x
+        t = recv.x.t
+        tot = z3.IntVal(0)
+        for i in range(recv.bits):
+            tot = tot + (t / (1 << i)) % 2 if i else tot + t % 2
+        return _M.name_int(ex, MC.mk_int(tot), 'popcount')
+    raise MC.Unsupported(f'str.{name} on bin() of a symbolic integer')
+
+
+MC.NATIVE_MODELS[bin] = m_bin
+MC.RECV_MODELS[BinStr] = binstr_method
